@@ -193,13 +193,6 @@ theorem fixBrokenM_q {e : Env} (hq : Quiet e) (f : Bytes) (fuel : Nat) :
       · simp only [ha, Bool.false_eq_true, ↓reduceIte, pure_run]
         exact ⟨_, rfl, rfl⟩
 
-theorem freadInt_q {e : Env} (hq : Quiet e) (n : Int) (s : FS) :
-    ∃ r s', freadInt n e s = (.ok r, s') ∧ s'.data = s.data := by
-  unfold freadInt
-  split
-  · rw [fread_q hq]; exact ⟨_, _, rfl, rfl⟩
-  · rw [fread_q hq]; exact ⟨_, _, rfl, rfl⟩
-
 /-- THE EQUIVALENCE: without faults, `_APEv2Data(fileobj)` with all its seeks and reads computes the pure `locate` of
 the bytes, for EVERY byte string (whose Lyrics3v2 size field, if the search gets that far, is six digits or no number),
 wherever the file position was, and leaves the bytes alone -/
@@ -221,18 +214,18 @@ theorem locateM_q {e : Env} (hq : Quiet e) (s : FS) (hint : LyricsSizeOK s.data)
     simp only [if_neg h2]
     by_cases h3 : ofLE (d.drop 12) / hasHeaderFlag % 2 = 1 ∧ ft + 32 - ofLE ((d.drop 4).take 4) < 32
     · simp only [if_pos h3, raise_run]; exact ⟨_, rfl, rfl⟩
-    simp only [if_neg h3, bind_run]
+    simp only [if_neg h3]
+    by_cases h4 : ofLE ((d.drop 4).take 4) < 32
+    · simp only [if_pos h4, raise_run]; exact ⟨_, rfl, rfl⟩
+    simp only [if_neg h4, bind_run]
     generalize hhdr : (if ofLE (d.drop 12) / hasHeaderFlag % 2 = 1 then ft + 32 - ofLE ((d.drop 4).take 4) - 32
       else ft + 32 - ofLE ((d.drop 4).take 4)) = header
     simp only [fseek_q hq]
     obtain ⟨s2, hr2, hd2⟩ := fixBrokenM_q hq s.data header header
       ⟨s.data, header, s1.ops + 1 + 1 + 1, .seek header :: .read 16 :: .seek (ft + 8) :: s1.log⟩ rfl rfl
     rw [hr2]
-    simp only [fseek_q hq, hd2]
-    obtain ⟨r, s3, hr3, hd3⟩ := freadInt_q hq ((ofLE ((d.drop 4).take 4) : Int) - 32)
-      ⟨s.data, ft + 32 - ofLE ((d.drop 4).take 4), s2.ops + 1, .seek (ft + 32 - ofLE ((d.drop 4).take 4)) :: s2.log⟩
-    rw [hr3]
-    exact ⟨s3, rfl, hd3⟩
+    simp only [fseek_q hq, fread_q hq, hd2]
+    exact ⟨_, rfl, rfl⟩
   | headerAtStart =>
     simp only [bind_run, fseek_q hq, fread_q hq, hd1]
     generalize hd : readAt s.data 8 16 = d
@@ -242,17 +235,10 @@ theorem locateM_q {e : Env} (hq : Quiet e) (s : FS) (hint : LyricsSizeOK s.data)
     by_cases h2 : 32 + ofLE ((d.drop 4).take 4) > s.data.length
     · simp only [if_pos h2, raise_run]; exact ⟨_, rfl, rfl⟩
     simp only [if_neg h2, bind_run, fseek_q hq, readIsApe_q hq]
-    obtain ⟨r, s3, hr3, hd3⟩ := freadInt_q hq
-      (if isApeAt s.data (32 + ofLE ((d.drop 4).take 4) - 32) = true then (ofLE ((d.drop 4).take 4) : Int) - 32
-        else (ofLE ((d.drop 4).take 4) : Int))
-      ⟨s.data, 32, s1.ops + 1 + 1 + 1 + 1 + 1 + 1 + 1 + 1 + 1 + 1, .seek 32 :: .seek 0 :: .read 8 ::
-        .seek (32 + ofLE ((d.drop 4).take 4) - 32) :: .seek (8 + d.length) :: .tell :: .seekEnd :: .tell :: .read 16 :: .seek 8 :: s1.log⟩
-    rw [hr3]
-    exact ⟨s3, rfl, hd3⟩
-
-/-- `fileobj.read(n)` at `pos` for an `n` that may be negative (read to the end), on the bytes -/
-def readIntAt (f : Bytes) (pos : Nat) (n : Int) : Bytes :=
-  if n < 0 then readAt f pos (f.length - pos) else readAt f pos n.toNat
+    by_cases h3 : isApeAt s.data (32 + ofLE ((d.drop 4).take 4) - 32) = true ∧ ofLE ((d.drop 4).take 4) < 32
+    · simp only [if_pos h3, raise_run]; exact ⟨_, rfl, rfl⟩
+    simp only [if_neg h3, bind_run, fseek_q hq, fread_q hq]
+    exact ⟨_, rfl, rfl⟩
 
 /-- `_APEv2Data(fileobj)` on the bytes, with `data.tag`: `locate` keeping the tag bytes -/
 def locateTag (f : Bytes) : Except PyErr (Option (Loc × Bytes)) :=
@@ -270,17 +256,19 @@ def locateTag (f : Bytes) : Except PyErr (Option (Loc × Bytes)) :=
         let data := endd - size
         let hasHdr := flags / hasHeaderFlag % 2 = 1
         if hasHdr ∧ data < 32 then .error .mutagen
+        else if size < 32 then .error .mutagen
         else
           let header := if hasHdr then data - 32 else data
-          .ok (some ({ start := fixBroken f header header, endd := endd, isAtStart := false }, readIntAt f data ((size : Int) - 32)))
+          .ok (some ({ start := fixBroken f header header, endd := endd, isAtStart := false }, readAt f data (size - 32)))
   | .headerAtStart =>
     let d := readAt f 8 16
     if d.length ≠ 16 then .error .mutagen
     else
       let size := ofLE ((d.drop 4).take 4)
       if 32 + size > f.length then .error .mutagen
+      else if isApeAt f (32 + size - 32) ∧ size < 32 then .error .mutagen
       else .ok (some ({ start := 0, endd := 32 + size, isAtStart := true },
-        readIntAt f 32 (if isApeAt f (32 + size - 32) then (size : Int) - 32 else size)))
+        readAt f 32 (if isApeAt f (32 + size - 32) then size - 32 else size)))
 
 /-- what `locateTag` locates is `locate` -/
 theorem locateTag_fst (f : Bytes) :
@@ -300,6 +288,9 @@ theorem locateTag_fst (f : Bytes) :
         ft + 32 - ofLE (((readAt f (ft + 8) 16).drop 4).take 4) < 32
     · rw [if_pos h3, if_pos h3]
     rw [if_neg h3, if_neg h3]
+    by_cases h4 : ofLE (((readAt f (ft + 8) 16).drop 4).take 4) < 32
+    · rw [if_pos h4, if_pos h4]
+    rw [if_neg h4, if_neg h4]
     rfl
   | headerAtStart =>
     simp only []
@@ -309,14 +300,11 @@ theorem locateTag_fst (f : Bytes) :
     by_cases h2 : 32 + ofLE (((readAt f 8 16).drop 4).take 4) > f.length
     · rw [if_pos h2, if_pos h2]
     rw [if_neg h2, if_neg h2]
+    by_cases h3 : isApeAt f (32 + ofLE (((readAt f 8 16).drop 4).take 4) - 32) = true ∧
+        ofLE (((readAt f 8 16).drop 4).take 4) < 32
+    · rw [if_pos h3, if_pos h3]
+    rw [if_neg h3, if_neg h3]
     rfl
-
-theorem freadIntAt_q {e : Env} (hq : Quiet e) (n : Int) (s : FS) :
-    ∃ s', freadInt n e s = (.ok (readIntAt s.data s.pos n), s') ∧ s'.data = s.data := by
-  unfold freadInt readIntAt
-  split
-  · rw [fread_q hq]; exact ⟨_, rfl, rfl⟩
-  · rw [fread_q hq]; exact ⟨_, rfl, rfl⟩
 
 /-- the same for `locateTagM`, which keeps the tag bytes read last -/
 theorem locateTagM_q {e : Env} (hq : Quiet e) (s : FS) (hint : LyricsSizeOK s.data) :
@@ -337,18 +325,18 @@ theorem locateTagM_q {e : Env} (hq : Quiet e) (s : FS) (hint : LyricsSizeOK s.da
     simp only [if_neg h2]
     by_cases h3 : ofLE (d.drop 12) / hasHeaderFlag % 2 = 1 ∧ ft + 32 - ofLE ((d.drop 4).take 4) < 32
     · simp only [if_pos h3, raise_run]; exact ⟨_, rfl, rfl⟩
-    simp only [if_neg h3, bind_run]
+    simp only [if_neg h3]
+    by_cases h4 : ofLE ((d.drop 4).take 4) < 32
+    · simp only [if_pos h4, raise_run]; exact ⟨_, rfl, rfl⟩
+    simp only [if_neg h4, bind_run]
     generalize hhdr : (if ofLE (d.drop 12) / hasHeaderFlag % 2 = 1 then ft + 32 - ofLE ((d.drop 4).take 4) - 32
       else ft + 32 - ofLE ((d.drop 4).take 4)) = header
     simp only [fseek_q hq]
     obtain ⟨s2, hr2, hd2⟩ := fixBrokenM_q hq s.data header header
       ⟨s.data, header, s1.ops + 1 + 1 + 1, .seek header :: .read 16 :: .seek (ft + 8) :: s1.log⟩ rfl rfl
     rw [hr2]
-    simp only [fseek_q hq, hd2]
-    obtain ⟨s3, hr3, hd3⟩ := freadIntAt_q hq ((ofLE ((d.drop 4).take 4) : Int) - 32)
-      ⟨s.data, ft + 32 - ofLE ((d.drop 4).take 4), s2.ops + 1, .seek (ft + 32 - ofLE ((d.drop 4).take 4)) :: s2.log⟩
-    rw [hr3]
-    exact ⟨s3, rfl, hd3⟩
+    simp only [fseek_q hq, fread_q hq, hd2]
+    exact ⟨_, rfl, rfl⟩
   | headerAtStart =>
     simp only [bind_run, fseek_q hq, fread_q hq, hd1]
     generalize hd : readAt s.data 8 16 = d
@@ -358,13 +346,10 @@ theorem locateTagM_q {e : Env} (hq : Quiet e) (s : FS) (hint : LyricsSizeOK s.da
     by_cases h2 : 32 + ofLE ((d.drop 4).take 4) > s.data.length
     · simp only [if_pos h2, raise_run]; exact ⟨_, rfl, rfl⟩
     simp only [if_neg h2, bind_run, fseek_q hq, readIsApe_q hq]
-    obtain ⟨s3, hr3, hd3⟩ := freadIntAt_q hq
-      (if isApeAt s.data (32 + ofLE ((d.drop 4).take 4) - 32) = true then (ofLE ((d.drop 4).take 4) : Int) - 32
-        else (ofLE ((d.drop 4).take 4) : Int))
-      ⟨s.data, 32, s1.ops + 1 + 1 + 1 + 1 + 1 + 1 + 1 + 1 + 1 + 1, .seek 32 :: .seek 0 :: .read 8 ::
-        .seek (32 + ofLE ((d.drop 4).take 4) - 32) :: .seek (8 + d.length) :: .tell :: .seekEnd :: .tell :: .read 16 :: .seek 8 :: s1.log⟩
-    rw [hr3]
-    exact ⟨s3, rfl, hd3⟩
+    by_cases h3 : isApeAt s.data (32 + ofLE ((d.drop 4).take 4) - 32) = true ∧ ofLE ((d.drop 4).take 4) < 32
+    · simp only [if_pos h3, raise_run]; exact ⟨_, rfl, rfl⟩
+    simp only [if_neg h3, bind_run, fseek_q hq, fread_q hq]
+    exact ⟨_, rfl, rfl⟩
 
 /-! ### save / delete / load with the REAL reads, in quiet environments -/
 
